@@ -18,6 +18,7 @@
 
 extern "C" void sim_set_result_fd(int fd);
 extern "C" void sim_set_default_prop(const char *p);
+extern "C" void aiomon_report(void);
 
 const char *h_prop = "C03";
 
@@ -386,6 +387,7 @@ child_run(const Cmd &cmd, int result_fd)
 		nng_fini();
 		sim_alloc_check_balance(NULL);
 	}
+	aiomon_report();
 	sim_finish();
 }
 
